@@ -12,7 +12,6 @@ PROPERTY = "C01"
 def _strip(rec):
     r = dict(rec)
     r.pop("trail", None)
-    r.pop("net_attr", None)
     return r
 
 
